@@ -994,6 +994,109 @@ def key_file_probe(rep: Report, ctx):
                 judge(path, out.new_key, be, new_pw, case)
 
 
+# --------------------------------------------------------------------------- rejected calls leave everything as it was
+def rejected_output_probe(rep: Report, ctx):
+    """Rejected settings leave everything as it was: for every rejected init / add-key call the backend is byte-for-byte
+    unchanged AND a key output path that already holds a key (the key in use: re-keying in place) or any other file is
+    untouched - same bytes, and the key in it still unlocks; a path that did not exist still does not."""
+    d = ctx.scratch / 'rejected'
+    d.mkdir(parents=True, exist_ok=True)
+    bad_add = ([{'encryption': {'kdf': k}} for k in (
+        {'name': 'scrypt', 'n': 3, 'r': 1, 'p': 1}, {'name': 'scrypt', 'n': 4, 'r': 0, 'p': 1}, {'name': 'scrypt', 'n': 4, 'r': 1, 'p': '1'},
+        {'name': 'scrypt', 'n': 4.0, 'r': 1, 'p': 1}, {'name': 'pbkdf2'}, {'name': 'sha2'}, {'name': 'scrypt', 'n': 4, 'r': 1, 'p': 1, 'salt': 'x'},
+        {'name': 'blake2b', 'length': 32}, {'name': 9})]
+        + [{'encryption': {'kdf': CHEAP_KDF, 'cipher': {}}}, {'hashing': {}}, {'encryption': None}, {'encryption': {'kdf': 'scrypt'}}])
+    n = 0
+    for how in ('independent', 'shared', 'clone'):
+        for settings in bad_add + ['no-password']:
+            for target in ('the key in use', 'another file', 'no file'):
+                n += 1
+                be = MemBackend()
+                own = d / f'own-{n}.key'
+                run_async(lambda: Repository(be, concurrent=1, cache_directory=None).init(password=b'owner', settings=settings_of(), key_output_path=own))
+                path = {'the key in use': own, 'another file': d / f'other-{n}', 'no file': d / f'absent-{n}'}[target]
+                if target == 'another file':
+                    path.write_bytes(b'something else worth keeping\n' * 30)
+                before_file = path.read_bytes() if path.exists() else None
+                before_be = dict(be.d)
+                repo = Repository(be, concurrent=1, cache_directory=None)
+                pw = None if settings == 'no-password' else (b'owner' if how == 'clone' else b'newcomer')
+                st = {'encryption': {'kdf': CHEAP_KDF}} if settings == 'no-password' else copy.deepcopy(settings)
+
+                async def go():
+                    if how != 'independent':
+                        await repo.unlock(password=b'owner', key=own.read_bytes())
+                    return await repo.add_key(password=pw, settings=st, shared=how != 'independent', key_output_path=path)
+                case = {'component': 'rejected-output', 'call': f'add-key ({how})', 'settings': settings, 'target': target}
+                try:
+                    run_async(go)
+                    rep.count('rejected-output:accepted')
+                    continue            # accepted after all: judged elsewhere
+                except BaseException as e:  # noqa
+                    if isinstance(e, (KeyboardInterrupt, SystemExit, MemoryError)):
+                        raise
+                    err = exc_name(e)
+                rep.case(case, nontrivial=True)
+                rep.count('rejected-output:add-key')
+                _judge_untouched(rep, case, err, be, before_be, path, before_file, own if target == 'the key in use' else None)
+    bad_init = ([settings_of(hashing=h) for h in ({'length': 0}, {'name': 'aes_gcm'}, {'name': 'sha2', 'bits': 1}, {'size': 3})]
+                + [settings_of(chunking=c) for c in ({'min_length': 0, 'max_length': 4}, {'min_length': 1.5, 'max_length': 256}, {'name': 'sha2'})]
+                + [settings_of(cipher=c) for c in ({'key_bits': 64}, {'nonce_bits': 63}, {'name': 'blake2b'})]
+                + [settings_of(kdf=k) for k in ({'name': 'scrypt', 'n': 3, 'r': 1, 'p': 1}, {'name': 'scrypt', 'n': 4, 'r': 0, 'p': 1}, {'name': 'nope'})]
+                + [{'compression': {}, 'encryption': {'kdf': CHEAP_KDF}}, 'no-password'])
+    for settings in bad_init:
+        for target in ('a key of another repository', 'another file', 'no file'):
+            n += 1
+            other_be, own = MemBackend(), d / f'own-{n}.key'
+            run_async(lambda: Repository(other_be, concurrent=1, cache_directory=None).init(password=b'owner', settings=settings_of(), key_output_path=own))
+            path = {'a key of another repository': own, 'another file': d / f'other-{n}', 'no file': d / f'absent-{n}'}[target]
+            if target == 'another file':
+                path.write_bytes(b'something else worth keeping\n' * 30)
+            before_file = path.read_bytes() if path.exists() else None
+            be = MemBackend()
+            pw = None if settings == 'no-password' else b'pw'
+            st = settings_of() if settings == 'no-password' else copy.deepcopy(settings)
+            case = {'component': 'rejected-output', 'call': 'init', 'settings': settings, 'target': target}
+            try:
+                run_async(lambda: Repository(be, concurrent=1, cache_directory=None).init(password=pw, settings=st, key_output_path=path))
+                rep.count('rejected-output:accepted')
+                continue
+            except BaseException as e:  # noqa
+                if isinstance(e, (KeyboardInterrupt, SystemExit, MemoryError)):
+                    raise
+                err = exc_name(e)
+            rep.case(case, nontrivial=True)
+            rep.count('rejected-output:init')
+            _judge_untouched(rep, case, err, be, {}, path, before_file, None)
+            if target == 'a key of another repository':
+                _still_unlocks(rep, case, err, other_be, own)
+
+
+def _still_unlocks(rep, case, err, be, keyfile):
+    try:
+        run_async(lambda: Repository(be, concurrent=1, cache_directory=None).unlock(password=b'owner', key=keyfile.read_bytes()))
+    except BaseException as e:  # noqa
+        if isinstance(e, (KeyboardInterrupt, SystemExit, MemoryError)):
+            raise
+        rep.violations.append({'what': f'{case["call"]} rejected its settings ({err}); the key file it was pointed at ({case["target"]}) no longer unlocks: {exc_name(e)}: {e}'[:220],
+                               'signature': {'kind': 'rejected_but_key_file_touched', 'call': case['call']}, 'replay': case})
+
+
+def _judge_untouched(rep, case, err, be, before_be, path, before_file, keyfile):
+    sig = {'kind': 'rejected_but_key_file_touched', 'call': case['call']}
+    if be.d != before_be:
+        rep.violations.append({'what': f'{case["call"]} rejected its settings ({err}) but the backend changed: {sorted(set(be.d) ^ set(before_be)) or "contents"}',
+                               'signature': dict(sig, kind='rejected_but_written'), 'replay': case})
+    after = path.read_bytes() if path.exists() else None
+    if after != before_file:
+        rep.violations.append({'what': f'{case["call"]} rejected its settings ({err}) with the key output path at {case["target"]}: the path held '
+                                       f'{"nothing" if before_file is None else str(len(before_file)) + " bytes"} before and '
+                                       f'{"nothing" if after is None else str(len(after)) + " bytes"} afterwards',
+                               'signature': sig, 'replay': case})
+    elif keyfile is not None:
+        _still_unlocks(rep, case, err, be, keyfile)
+
+
 # --------------------------------------------------------------------------- init again at a location that holds a repository
 def reinit_probe(rep: Report, ctx, n_random):
     """Sequences of accepted inits with different settings at ONE location of the real local backend: after each of them the
@@ -1279,6 +1382,7 @@ def run(ctx) -> Report:
     guard('check_add_key_chains', check_chains, rep, ctx, ctx.scale(25, None), ciphers if ctx.tier == 'thorough' else ciphers[:2])
     guard('long_password_probe', long_password_probe, rep, ctx)
     guard('key_file_probe', key_file_probe, rep, ctx)
+    guard('rejected_output_probe', rejected_output_probe, rep, ctx)
     guard('reinit_probe', reinit_probe, rep, ctx, ctx.scale(4, 40))
     guard('oversize_probe', oversize_probe, rep, ctx)
     guard('near_miss_probe', trailing_nul_probe, rep, ctx)
@@ -1305,8 +1409,8 @@ def search(ctx, broken) -> Report:
 def replay(ctx, obj):
     rep = Report(rule=RULE)
     case = obj.get('replay') or {}
-    if case.get('component') in ('key-file', 'reinit', 'oversize', 'trailing-nul', 'shared-cache'):
-        {'shared-cache': shared_cache_probe, 'key-file': key_file_probe, 'reinit': lambda r, c: reinit_probe(r, c, 10), 'oversize': oversize_probe,
+    if case.get('component') in ('key-file', 'reinit', 'oversize', 'trailing-nul', 'shared-cache', 'rejected-output'):
+        {'shared-cache': shared_cache_probe, 'rejected-output': rejected_output_probe, 'key-file': key_file_probe, 'reinit': lambda r, c: reinit_probe(r, c, 10), 'oversize': oversize_probe,
          'trailing-nul': trailing_nul_probe}[case['component']](rep, ctx)
         for v in rep.violations:
             print('VIOLATION-REPRODUCED', v['what'])
